@@ -373,9 +373,28 @@ func (r *Reconciler) selectNodes(logger logr.Logger, daemonset *datadoghqv1alpha
 		currentNodes = canaryStatus.Nodes
 	}
 
-	// A percentage is resolved against the number of nodes targeted by the ExtendedDaemonSet (same base as the caller),
-	// not against the canary replica set's own desired count, which is 0 until canary nodes have been selected.
-	nbCanaryPod, err := intstrutil.GetValueFromIntOrPercent(daemonsetSpec.Strategy.Canary.Replicas, int(daemonset.Status.Desired), true)
+	// A percentage is resolved against the number of nodes targeted by the ExtendedDaemonSet. status.desired cannot be used
+	// for that during a canary: it adds up the statuses of the active and of the canary replica sets, which are published at
+	// different times, so the canary nodes are counted twice until the active replica set has synced again (and nodes that
+	// left the cluster are still counted). As canary nodes are never unselected, count the nodes on which the pod can be
+	// scheduled instead.
+	nbTargetedNodes := int(daemonset.Status.Desired)
+	if replicas := daemonsetSpec.Strategy.Canary.Replicas; replicas != nil && replicas.Type == intstrutil.String {
+		allNodes := nodeList
+		if len(listOptions) != 0 {
+			allNodes = &corev1.NodeList{}
+			if err = r.client.List(context.TODO(), allNodes); err != nil {
+				return err
+			}
+		}
+		nbTargetedNodes = 0
+		for id := range allNodes.Items {
+			if scheduler.CheckNodeFitness(logger.WithValues("filter", "targeted Nodes"), newPod, &allNodes.Items[id]) {
+				nbTargetedNodes++
+			}
+		}
+	}
+	nbCanaryPod, err := intstrutil.GetValueFromIntOrPercent(daemonsetSpec.Strategy.Canary.Replicas, nbTargetedNodes, true)
 	if err != nil {
 		return err
 	}
